@@ -24,7 +24,7 @@ META = {
             'all 1- and 2-cut splittings with cuts next to every segment boundary.  After each read the frames delivered to the '
             'handlers registered by send_msg must be exactly those whose last segment has completely arrived, and the '
             'connection must not fail.  The driver\'s own encoder is read back by the independent reader for request sizes '
-            'around the segment limit.  Every single-bit flip of three small two-segment streams x every 1-cut split must '
+            'around the segment limit.  Every single-bit flip of four small two-segment streams (self-contained and not, plain and both lz4 forms) x every 1-cut split must '
             'leave the connection defunct with CrcMismatchException and deliver only unaltered frames of earlier segments.',
     'note': 'Trusted: vt.world.wire segment writer/reader (CRC24/CRC32 per native_protocol_v5.spec) and the lz4 block codec stub '
             '(self-tested on hand-written vectors).  Small non-self-contained segments are legal on the wire but not produced by '
@@ -160,6 +160,8 @@ SMALL_LZ4_ONLY = {
     'compressed-then-uncompressed': lambda lz: Stream('compressed-then-uncompressed', True).sc([ZB], 'C').sc([b'\x41\x42'], 'U'),
     'compressed-two-frames': lambda lz: Stream('compressed-two-frames', True).sc([ZB, ZB + b'\x01'], 'C'),
 }
+FLIP_STREAMS = ((False, 'two-segments'), (False, 'frame-over-two-segments'), (True, 'uncompressed-then-compressed'),
+                (True, 'compressed-then-uncompressed'))
 BIG_SIZES = {'MAX-1': MAX - 1, 'MAX': MAX, 'MAX+1': MAX + 1, '2MAX': 2 * MAX, '2MAX+5': 2 * MAX + 5}
 
 
@@ -306,6 +308,8 @@ def send_and_read_back(lz4, size, compressible, part):
             conn.send_msg(QueryMessage(q, 1), rid, lambda r: None)
         except ValueError as e:       # raised by the independent reader inside push()
             bad = ('unreadable', str(e))
+        except Exception as e:        # the driver refused to encode a legal request
+            bad = ('raised', '%s: %s' % (type(e).__name__, e))
         if bad is None:
             segs = seglog.segments[n0:]
             total = sum(len(s[3]) for s in segs)
@@ -431,15 +435,16 @@ def run(ctx):
             items += [(tot // n, ('small', name, lz4, k, n)) for k in range(n)]
     bigs = ['MAX-1', 'MAX', 'MAX+1', '2MAX', '2MAX+5', 'small+MAX', 'MAX+small', 'small+MAX+1', '2MAX+5+small']
     r1, r2 = (8, 1) if ctx.quick else (8, 4)
+    bigs_lz4 = bigs if ctx.thorough else ['MAX', 'MAX+1', '2MAX+5', 'small+MAX+1']
     for lz4, form in ((False, 'P'), (True, 'U'), (True, 'C')):
-        for name in bigs:
+        for name in (bigs if not lz4 else bigs_lz4):
             # rough count for load balancing only
             nseg = {'MAX-1': 1, 'MAX': 1, 'MAX+1': 2, '2MAX': 2, '2MAX+5': 3}[name.replace('small+', '').replace('+small', '')] + ('small' in name)
             npos = nseg * 5 * (2 * r2 + 1)
             tot = npos * npos // 2 * 6        # weight: big executions cost several small ones
             n = max(1, tot // per)
             items += [(tot // n, ('big', name, lz4, form, r1, r2, k, n)) for k in range(n)]
-    for lz4, name in ((False, 'two-segments'), (True, 'uncompressed-then-compressed'), (True, 'compressed-then-uncompressed')):
+    for lz4, name in FLIP_STREAMS:
         st = get_stream('small', name, lz4)
         tot = len(st.data) * 8 * len(st.data)
         n = max(1, tot // per)
@@ -454,11 +459,11 @@ def run(ctx):
         ctx.merge(part)
     ctx.cov['rule'] = ('codecs {plain, lz4}; small streams %s (+ lz4 only: %s): all splittings with <=2 cuts anywhere U <=3 cuts within 1 '
                        'byte of a segment start / header end / header-CRC end / payload end / segment end U one byte per read; big '
-                       'streams %s in forms plain / lz4-left-uncompressed / lz4-compressed: all 1-cut splittings within %d bytes and '
+                       'streams %s in plain form and %s in lz4-left-uncompressed / lz4-compressed form: all 1-cut splittings within %d bytes and '
                        'all 2-cut splittings within %d byte(s) of those boundaries; outgoing frame sizes %s; bit flips: every bit of '
-                       '3 two-segment streams x (unsplit + every 1-cut split); non-trivial = distinct (stream, codec, number of cuts) '
+                       '%d two-segment streams %s x (unsplit + every 1-cut split); non-trivial = distinct (stream, codec, number of cuts) '
                        'classes, flipped bits, outgoing segment forms'
-                       % (list(SMALL), list(SMALL_LZ4_ONLY), bigs, r1, r2, sizes))
+                       % (list(SMALL), list(SMALL_LZ4_ONLY), bigs, bigs_lz4, r1, r2, sizes, len(FLIP_STREAMS), [n for _, n in FLIP_STREAMS]))
     ctx.cov['exhaustive'] = True
     ctx.assume('stream ids after the handshake are handed out in the order 2, 3, ... (checked at every execution)')
     ctx.assume('a node leaves a segment payload uncompressed exactly when compressing does not make it smaller')
